@@ -68,9 +68,9 @@ def main(argv=None):
     worst = 0
     # wall-clock guard: an analysis that does not terminate is an analysis error (fail closed), never a hang
     try:
-        limit = int(os.environ.get("VERIF_TIMEOUT", "300" if args.tier == "quick" else "3600"))
+        limit = int(os.environ.get("VERIF_TIMEOUT", "900" if args.tier == "quick" else "3600"))
     except ValueError:
-        limit = 300
+        limit = 900
 
     class _Timeout(BaseException):
         pass
